@@ -226,6 +226,11 @@ func writeShardsFn(dir, kind, require, caseType, fn string, terms []string, shar
 			sb.WriteString("From C4E Require Import AppCheck.\nDefinition dcases : list abcase := [\n" + strings.Join(appDistrTerms, ";\n") +
 				"\n].\nDefinition D := Eval vm_compute in abmismatches dcases.\nPrint D.\n")
 		}
+		if strings.HasPrefix(kind, "upgrade") && k == 0 && len(upgradeTraceTerms) > 0 {
+			// the recorded accounts through the upgrade against UpgradeTraces.v
+			sb.WriteString("From C4E Require Import UpgradeTraces.\nDefinition tcases : list tcase := [\n" + strings.Join(upgradeTraceTerms, ";\n") +
+				"\n].\nDefinition D := Eval vm_compute in tmismatches tcases.\nPrint D.\n")
+		}
 		if require == "Distributor" {
 			// the credited-amounts machine next to the model on the same cases (LedgerCheck.v)
 			sb.WriteString("From C4E Require Import LedgerCheck.\nDefinition L := Eval vm_compute in ledger_disagreements cases.\nPrint L.\n")
